@@ -210,6 +210,13 @@ func rewrite(rel string, src []byte, goCalled map[string]bool) ([]byte, int) {
 					out = append(out, yield("chan", s.Pos()))
 					n++
 				}
+			case *ast.ExprStmt, *ast.AssignStmt:
+				// a plain receive statement (`<-ch`, `v := <-ch`): like a send, a place where the goroutine may have to wait
+				// for somebody else - and where that somebody may get in first
+				if !hooked && isRecv(s) {
+					out = append(out, yield("chan", s.Pos()))
+					n++
+				}
 			}
 			out = append(out, s)
 			if unlockCall(s) && !(i+1 < len(list) && isHookCall(list[i+1])) {
